@@ -232,6 +232,14 @@ def handle (line : String) : String :=
       | "max" => showV (maxVal n)
       | "digits" => toString (limitsDigits k)
       | "limits" => s!"digits={limitsDigits k} radix={limitsRadix} signed={showB limitsIsSigned} integer={showB limitsIsInteger} exact={showB limitsIsExact} bounded={showB limitsIsBounded} modulo={showB limitsIsModulo} specialized={showB limitsIsSpecialized} exponents={",".intercalate (limitsExponents.map toString)} infinity={showB limitsHasInfinity} qnan={showB limitsHasQuietNaN} snan={showB limitsHasSignalingNaN} denormloss={showB limitsHasDenormLoss} iec559={showB limitsIsIec559} traps={showB limitsTraps} tinyness={showB limitsTinynessBefore}"
+      -- `mpi A B C`: what MPITraits<bigunsignedint<k>>::getType() (regenerated description) transports
+      | "mpi" => match rest with
+        | [a, b, c] => match big a, big b, big c with
+          | some a, some b, some c =>
+            let bytes := mpiBlocks * mpiCount k * mpiElemBits / 8
+            s!"size={bytes} extent={bits * n / 8} [{showV a},{showV b},{showV c}]"
+          | _, _, _ => "bad-op"
+        | _ => "bad-op"
       | "default" => match rest with
         | [] => showV (assign n 0)
         | _ => "bad-op"
